@@ -98,3 +98,11 @@ Proof. eexists. eexists. split; vm_compute; [reflexivity|repeat split; reflexivi
 Lemma ex_fifo_keeps_order : exists s o, run (ex_cfg true) (init (ex_cfg true)) ex_backlog = Some (s, o) /\
   txs o = enqs o /\ aget 12 (d_stored s) = [5; 0].
 Proof. eexists. eexists. split; vm_compute; [reflexivity|split; reflexivity]. Qed.
+
+(* set_value(<uint8 parameter>, 2): the write echo [id_lo; id_hi; 2] is the echo of the value 2 (not ENOENT) *)
+Definition ex_u8 : config := mkCfg [mkElem 3 0 0 TU8 false true] [(0, 1000)] [] [1003] [(3, [9])] [(3, [9])] [] true.
+Lemma ex_write_two : exists s o, run ex_u8 (init ex_u8)
+    [EvRead 0; EvUGet; EvUSend; EvDeliver; EvSet 0 (VInt 2); EvUGet; EvUSend; EvDeliver] = Some (s, o) /\
+  rx_replies o = [(1, [3; 0; 0; 9]); (2, [3; 0; 2])] /\ get_value ex_u8 s 0 = Some (VInt 2) /\
+  upd_calls o = [(1000, 0, VInt 9); (1003, 0, VInt 9); (1000, 0, VInt 2); (1003, 0, VInt 2)] /\ s_lock s = false.
+Proof. eexists. eexists. split; vm_compute; [reflexivity|repeat split; reflexivity]. Qed.
